@@ -80,6 +80,17 @@ def is_reraise_with(st):
             name = f.attr if isinstance(f, ast.Attribute) else getattr(
                 f, 'id', '')
             if name == 'save_and_reraise_exception':
+                # reraise=False, or "<ctx>.reraise = False" in the body,
+                # turns the idiom into a swallow
+                for k in e.keywords:
+                    if k.arg == 'reraise' and not (isinstance(
+                            k.value, ast.Constant) and k.value.value is
+                            True):
+                        return False
+                for n in ast.walk(st):
+                    if isinstance(n, ast.Attribute) and isinstance(
+                            n.ctx, ast.Store) and n.attr == 'reraise':
+                        return False
                 return True
     return False
 
